@@ -99,6 +99,9 @@ func (e *Ethernet) UnmarshalBinary(data []byte) error {
 
 	e.Ethertype = binary.BigEndian.Uint16(data[n:])
 	if e.Ethertype == VLAN_MSG {
+		if len(data) < 18 {
+			return errors.New("The []byte is too short to unmarshal a full tagged Ethernet message.")
+		}
 		e.VLANID = *new(VLAN)
 		err := e.VLANID.UnmarshalBinary(data[n:])
 		if err != nil {
